@@ -57,13 +57,13 @@ Definition cbca_step_1 : kernel :=
   [
     SAssign 0 (EShape 0 0);
     SAssign 1 (EShape 0 1);
-    SAlloc 1 [(EVar 0); (EBin Add (EVar 1) (EInt (1)%Z))] F64;
+    SAlloc 1 [(EVar 0); (EBin BAdd (EVar 1) (EInt (1)%Z))] F64;
     SFor 2 (EInt (0)%Z) (EVar 0) (EInt (1)%Z) [
       SFor 3 (EInt (0)%Z) (EVar 1) (EInt (1)%Z) [
-        SIf (EUn Not (EUn IsNan (ELoad2 0 (EVar 2) (EVar 3)))) [
-          SStore2 1 (EVar 2) (EVar 3) (EBin Add (ELoad2 1 (EVar 2) (EBin Sub (EVar 3) (EInt (1)%Z))) (ELoad2 0 (EVar 2) (EVar 3)))
+        SIf (EUn UNot (EUn UIsNan (ELoad2 0 (EVar 2) (EVar 3)))) [
+          SStore2 1 (EVar 2) (EVar 3) (EBin BAdd (ELoad2 1 (EVar 2) (EBin BSub (EVar 3) (EInt (1)%Z))) (ELoad2 0 (EVar 2) (EVar 3)))
         ] [
-          SStore2 1 (EVar 2) (EVar 3) (ELoad2 1 (EVar 2) (EBin Sub (EVar 3) (EInt (1)%Z)))
+          SStore2 1 (EVar 2) (EVar 3) (ELoad2 1 (EVar 2) (EBin BSub (EVar 3) (EInt (1)%Z)))
         ]
       ]
     ]
@@ -78,14 +78,14 @@ Definition cbca_step_2 : kernel :=
   [
     SAssign 0 (EShape 0 0);
     SAssign 1 (EShape 0 1);
-    SAlloc 5 [(EVar 0); (EBin Sub (EVar 1) (EInt (1)%Z))] F64;
-    SAlloc 6 [(EVar 0); (EBin Sub (EVar 1) (EInt (1)%Z))] F32;
+    SAlloc 5 [(EVar 0); (EBin BSub (EVar 1) (EInt (1)%Z))] F64;
+    SAlloc 6 [(EVar 0); (EBin BSub (EVar 1) (EInt (1)%Z))] F32;
     SFor 2 (EInt (0)%Z) (EShape 0 0) (EInt (1)%Z) [
       SFor 3 (EInt (0)%Z) (EShape 3 0) (EInt (1)%Z) [
-        SAssign 4 (EBin Min (ELoad3 1 (EVar 2) (ELoad1 3 (EVar 3)) (EInt (1)%Z)) (ELoad3 2 (EVar 2) (ELoad1 4 (EVar 3)) (EInt (1)%Z)));
-        SAssign 5 (EBin Min (ELoad3 1 (EVar 2) (ELoad1 3 (EVar 3)) (EInt (0)%Z)) (ELoad3 2 (EVar 2) (ELoad1 4 (EVar 3)) (EInt (0)%Z)));
-        SStore2 5 (EVar 2) (ELoad1 3 (EVar 3)) (EBin Sub (ELoad2 0 (EVar 2) (EBin Add (ELoad1 3 (EVar 3)) (EVar 4))) (ELoad2 0 (EVar 2) (EBin Sub (EBin Sub (ELoad1 3 (EVar 3)) (EVar 5)) (EInt (1)%Z))));
-        SAug2 6 (EVar 2) (ELoad1 3 (EVar 3)) (EBin Add (EVar 4) (EVar 5))
+        SAssign 4 (EBin BMin (ELoad3 1 (EVar 2) (ELoad1 3 (EVar 3)) (EInt (1)%Z)) (ELoad3 2 (EVar 2) (ELoad1 4 (EVar 3)) (EInt (1)%Z)));
+        SAssign 5 (EBin BMin (ELoad3 1 (EVar 2) (ELoad1 3 (EVar 3)) (EInt (0)%Z)) (ELoad3 2 (EVar 2) (ELoad1 4 (EVar 3)) (EInt (0)%Z)));
+        SStore2 5 (EVar 2) (ELoad1 3 (EVar 3)) (EBin BSub (ELoad2 0 (EVar 2) (EBin BAdd (ELoad1 3 (EVar 3)) (EVar 4))) (ELoad2 0 (EVar 2) (EBin BSub (EBin BSub (ELoad1 3 (EVar 3)) (EVar 5)) (EInt (1)%Z))));
+        SAug2 6 (EVar 2) (ELoad1 3 (EVar 3)) (EBin BAdd (EVar 4) (EVar 5))
       ]
     ]
   ]
@@ -99,11 +99,11 @@ Definition cbca_step_3 : kernel :=
   [
     SAssign 0 (EShape 0 0);
     SAssign 1 (EShape 0 1);
-    SAlloc 1 [(EBin Add (EVar 0) (EInt (1)%Z)); (EVar 1)] F64;
+    SAlloc 1 [(EBin BAdd (EVar 0) (EInt (1)%Z)); (EVar 1)] F64;
     SRowCopy 1 (EInt (0)%Z) 0 (EInt (0)%Z);
     SFor 2 (EInt (1)%Z) (EVar 0) (EInt (1)%Z) [
       SFor 3 (EInt (0)%Z) (EVar 1) (EInt (1)%Z) [
-        SStore2 1 (EVar 2) (EVar 3) (EBin Add (ELoad2 1 (EBin Sub (EVar 2) (EInt (1)%Z)) (EVar 3)) (ELoad2 0 (EVar 2) (EVar 3)))
+        SStore2 1 (EVar 2) (EVar 3) (EBin BAdd (ELoad2 1 (EBin BSub (EVar 2) (EInt (1)%Z)) (EVar 3)) (ELoad2 0 (EVar 2) (EVar 3)))
       ]
     ]
   ]
@@ -117,19 +117,19 @@ Definition cbca_step_4 : kernel :=
   [
     SAssign 0 (EShape 0 0);
     SAssign 1 (EShape 0 1);
-    SAlloc 6 [(EBin Sub (EVar 0) (EInt (1)%Z)); (EVar 1)] F64;
+    SAlloc 6 [(EBin BSub (EVar 0) (EInt (1)%Z)); (EVar 1)] F64;
     SCopy 7 1;
     SFor 2 (EInt (0)%Z) (EShape 6 0) (EInt (1)%Z) [
       SFor 3 (EInt (0)%Z) (EShape 4 0) (EInt (1)%Z) [
-        SAssign 4 (EBin Min (ELoad3 2 (EVar 2) (ELoad1 4 (EVar 3)) (EInt (2)%Z)) (ELoad3 3 (EVar 2) (ELoad1 5 (EVar 3)) (EInt (2)%Z)));
-        SAssign 5 (EBin Min (ELoad3 2 (EVar 2) (ELoad1 4 (EVar 3)) (EInt (3)%Z)) (ELoad3 3 (EVar 2) (ELoad1 5 (EVar 3)) (EInt (3)%Z)));
-        SStore2 6 (EVar 2) (ELoad1 4 (EVar 3)) (EBin Sub (ELoad2 0 (EBin Add (EVar 2) (EVar 5)) (ELoad1 4 (EVar 3))) (ELoad2 0 (EBin Sub (EBin Sub (EVar 2) (EVar 4)) (EInt (1)%Z)) (ELoad1 4 (EVar 3))));
-        SAug2 7 (EVar 2) (ELoad1 4 (EVar 3)) (EBin Add (EVar 4) (EVar 5));
-        SIf (EBin Ne (EVar 4) (EInt (0)%Z)) [
-          SAug2 7 (EVar 2) (ELoad1 4 (EVar 3)) (ESumSlice 1 (EBin Sub (EVar 2) (EVar 4)) (EVar 2) (ELoad1 4 (EVar 3)))
+        SAssign 4 (EBin BMin (ELoad3 2 (EVar 2) (ELoad1 4 (EVar 3)) (EInt (2)%Z)) (ELoad3 3 (EVar 2) (ELoad1 5 (EVar 3)) (EInt (2)%Z)));
+        SAssign 5 (EBin BMin (ELoad3 2 (EVar 2) (ELoad1 4 (EVar 3)) (EInt (3)%Z)) (ELoad3 3 (EVar 2) (ELoad1 5 (EVar 3)) (EInt (3)%Z)));
+        SStore2 6 (EVar 2) (ELoad1 4 (EVar 3)) (EBin BSub (ELoad2 0 (EBin BAdd (EVar 2) (EVar 5)) (ELoad1 4 (EVar 3))) (ELoad2 0 (EBin BSub (EBin BSub (EVar 2) (EVar 4)) (EInt (1)%Z)) (ELoad1 4 (EVar 3))));
+        SAug2 7 (EVar 2) (ELoad1 4 (EVar 3)) (EBin BAdd (EVar 4) (EVar 5));
+        SIf (EBin BNe (EVar 4) (EInt (0)%Z)) [
+          SAug2 7 (EVar 2) (ELoad1 4 (EVar 3)) (ESumSlice 1 (EBin BSub (EVar 2) (EVar 4)) (EVar 2) (ELoad1 4 (EVar 3)))
         ] [];
-        SIf (EBin Ne (EVar 5) (EInt (0)%Z)) [
-          SAug2 7 (EVar 2) (ELoad1 4 (EVar 3)) (ESumSlice 1 (EBin Add (EVar 2) (EInt (1)%Z)) (EBin Add (EBin Add (EVar 2) (EVar 5)) (EInt (1)%Z)) (ELoad1 4 (EVar 3)))
+        SIf (EBin BNe (EVar 5) (EInt (0)%Z)) [
+          SAug2 7 (EVar 2) (ELoad1 4 (EVar 3)) (ESumSlice 1 (EBin BAdd (EVar 2) (EInt (1)%Z)) (EBin BAdd (EBin BAdd (EVar 2) (EVar 5)) (EInt (1)%Z)) (ELoad1 4 (EVar 3)))
         ] []
       ]
     ]
@@ -147,43 +147,43 @@ Definition cross_support : kernel :=
     SAlloc 1 [(EVar 2); (EVar 3); (EInt (4)%Z)] I16;
     SFor 4 (EInt (0)%Z) (EVar 2) (EInt (1)%Z) [
       SFor 5 (EInt (0)%Z) (EVar 3) (EInt (1)%Z) [
-        SIf (EUn IsFinite (ELoad2 0 (EVar 4) (EVar 5))) [
+        SIf (EUn UIsFinite (ELoad2 0 (EVar 4) (EVar 5))) [
           SAssign 6 (EInt (0)%Z);
-          SAssign 7 (EBin Max (EBin Sub (EVar 5) (EInt (1)%Z)) (EInt (0)%Z));
-          SFor 7 (EBin Sub (EVar 5) (EInt (1)%Z)) (EBin Max (EBin Sub (EVar 5) (EVar 0)) (EInt (-1)%Z)) (EInt (-1)%Z) [
-            SIf (EBin Ge (EUn Abs (EBin Sub (ELoad2 0 (EVar 4) (EVar 5)) (ELoad2 0 (EVar 4) (EVar 7)))) (EVar 1)) [
+          SAssign 7 (EBin BMax (EBin BSub (EVar 5) (EInt (1)%Z)) (EInt (0)%Z));
+          SFor 7 (EBin BSub (EVar 5) (EInt (1)%Z)) (EBin BMax (EBin BSub (EVar 5) (EVar 0)) (EInt (-1)%Z)) (EInt (-1)%Z) [
+            SIf (EBin BGe (EUn UAbs (EBin BSub (ELoad2 0 (EVar 4) (EVar 5)) (ELoad2 0 (EVar 4) (EVar 7)))) (EVar 1)) [
               SBreak
             ] [];
-            SAssign 6 (EBin Add (EVar 6) (EInt (1)%Z))
+            SAssign 6 (EBin BAdd (EVar 6) (EInt (1)%Z))
           ];
-          SStore3 1 (EVar 4) (EVar 5) (EInt (0)%Z) (EBin Max (EVar 6) (EBin Mul (EBin Mul (EInt (1)%Z) (EBin Ge (EVar 5) (EInt (1)%Z))) (EUn IsFinite (ELoad2 0 (EVar 4) (EVar 7)))));
+          SStore3 1 (EVar 4) (EVar 5) (EInt (0)%Z) (EBin BMax (EVar 6) (EBin BMul (EBin BMul (EInt (1)%Z) (EBin BGe (EVar 5) (EInt (1)%Z))) (EUn UIsFinite (ELoad2 0 (EVar 4) (EVar 7)))));
           SAssign 8 (EInt (0)%Z);
-          SAssign 9 (EBin Min (EBin Add (EVar 5) (EInt (1)%Z)) (EBin Sub (EVar 3) (EInt (1)%Z)));
-          SFor 9 (EBin Add (EVar 5) (EInt (1)%Z)) (EBin Min (EBin Add (EVar 5) (EVar 0)) (EVar 3)) (EInt (1)%Z) [
-            SIf (EBin Ge (EUn Abs (EBin Sub (ELoad2 0 (EVar 4) (EVar 5)) (ELoad2 0 (EVar 4) (EVar 9)))) (EVar 1)) [
+          SAssign 9 (EBin BMin (EBin BAdd (EVar 5) (EInt (1)%Z)) (EBin BSub (EVar 3) (EInt (1)%Z)));
+          SFor 9 (EBin BAdd (EVar 5) (EInt (1)%Z)) (EBin BMin (EBin BAdd (EVar 5) (EVar 0)) (EVar 3)) (EInt (1)%Z) [
+            SIf (EBin BGe (EUn UAbs (EBin BSub (ELoad2 0 (EVar 4) (EVar 5)) (ELoad2 0 (EVar 4) (EVar 9)))) (EVar 1)) [
               SBreak
             ] [];
-            SAssign 8 (EBin Add (EVar 8) (EInt (1)%Z))
+            SAssign 8 (EBin BAdd (EVar 8) (EInt (1)%Z))
           ];
-          SStore3 1 (EVar 4) (EVar 5) (EInt (1)%Z) (EBin Max (EVar 8) (EBin Mul (EBin Mul (EInt (1)%Z) (EBin Lt (EVar 5) (EBin Sub (EVar 3) (EInt (1)%Z)))) (EUn IsFinite (ELoad2 0 (EVar 4) (EVar 9)))));
+          SStore3 1 (EVar 4) (EVar 5) (EInt (1)%Z) (EBin BMax (EVar 8) (EBin BMul (EBin BMul (EInt (1)%Z) (EBin BLt (EVar 5) (EBin BSub (EVar 3) (EInt (1)%Z)))) (EUn UIsFinite (ELoad2 0 (EVar 4) (EVar 9)))));
           SAssign 10 (EInt (0)%Z);
-          SAssign 11 (EBin Max (EBin Sub (EVar 4) (EInt (1)%Z)) (EInt (0)%Z));
-          SFor 11 (EBin Sub (EVar 4) (EInt (1)%Z)) (EBin Max (EBin Sub (EVar 4) (EVar 0)) (EInt (-1)%Z)) (EInt (-1)%Z) [
-            SIf (EBin Ge (EUn Abs (EBin Sub (ELoad2 0 (EVar 4) (EVar 5)) (ELoad2 0 (EVar 11) (EVar 5)))) (EVar 1)) [
+          SAssign 11 (EBin BMax (EBin BSub (EVar 4) (EInt (1)%Z)) (EInt (0)%Z));
+          SFor 11 (EBin BSub (EVar 4) (EInt (1)%Z)) (EBin BMax (EBin BSub (EVar 4) (EVar 0)) (EInt (-1)%Z)) (EInt (-1)%Z) [
+            SIf (EBin BGe (EUn UAbs (EBin BSub (ELoad2 0 (EVar 4) (EVar 5)) (ELoad2 0 (EVar 11) (EVar 5)))) (EVar 1)) [
               SBreak
             ] [];
-            SAssign 10 (EBin Add (EVar 10) (EInt (1)%Z))
+            SAssign 10 (EBin BAdd (EVar 10) (EInt (1)%Z))
           ];
-          SStore3 1 (EVar 4) (EVar 5) (EInt (2)%Z) (EBin Max (EVar 10) (EBin Mul (EBin Mul (EInt (1)%Z) (EBin Ge (EVar 4) (EInt (1)%Z))) (EUn IsFinite (ELoad2 0 (EVar 11) (EVar 5)))));
+          SStore3 1 (EVar 4) (EVar 5) (EInt (2)%Z) (EBin BMax (EVar 10) (EBin BMul (EBin BMul (EInt (1)%Z) (EBin BGe (EVar 4) (EInt (1)%Z))) (EUn UIsFinite (ELoad2 0 (EVar 11) (EVar 5)))));
           SAssign 12 (EInt (0)%Z);
-          SAssign 13 (EBin Min (EBin Add (EVar 4) (EInt (1)%Z)) (EBin Sub (EVar 2) (EInt (1)%Z)));
-          SFor 13 (EBin Add (EVar 4) (EInt (1)%Z)) (EBin Min (EBin Add (EVar 4) (EVar 0)) (EVar 2)) (EInt (1)%Z) [
-            SIf (EBin Ge (EUn Abs (EBin Sub (ELoad2 0 (EVar 4) (EVar 5)) (ELoad2 0 (EVar 13) (EVar 5)))) (EVar 1)) [
+          SAssign 13 (EBin BMin (EBin BAdd (EVar 4) (EInt (1)%Z)) (EBin BSub (EVar 2) (EInt (1)%Z)));
+          SFor 13 (EBin BAdd (EVar 4) (EInt (1)%Z)) (EBin BMin (EBin BAdd (EVar 4) (EVar 0)) (EVar 2)) (EInt (1)%Z) [
+            SIf (EBin BGe (EUn UAbs (EBin BSub (ELoad2 0 (EVar 4) (EVar 5)) (ELoad2 0 (EVar 13) (EVar 5)))) (EVar 1)) [
               SBreak
             ] [];
-            SAssign 12 (EBin Add (EVar 12) (EInt (1)%Z))
+            SAssign 12 (EBin BAdd (EVar 12) (EInt (1)%Z))
           ];
-          SStore3 1 (EVar 4) (EVar 5) (EInt (3)%Z) (EBin Max (EVar 12) (EBin Mul (EBin Mul (EInt (1)%Z) (EBin Lt (EVar 4) (EBin Sub (EVar 2) (EInt (1)%Z)))) (EUn IsFinite (ELoad2 0 (EVar 13) (EVar 5)))))
+          SStore3 1 (EVar 4) (EVar 5) (EInt (3)%Z) (EBin BMax (EVar 12) (EBin BMul (EBin BMul (EInt (1)%Z) (EBin BLt (EVar 4) (EBin BSub (EVar 2) (EInt (1)%Z)))) (EUn UIsFinite (ELoad2 0 (EVar 13) (EVar 5)))))
         ] []
       ]
     ]
